@@ -71,6 +71,10 @@ type pipeHarness struct {
 	// (nil = no background readers)
 	readerPlans func() []readerPlan
 	judged      int
+	// lifecycle: number of failing connection attempts planned for the next subscription (only the
+	// first subscription of a cluster dials), and how many NewSubscriber calls failed that way
+	dialFails  int
+	dialFailed int
 }
 
 func newPipeHarness() *pipeHarness {
@@ -347,7 +351,20 @@ func (h *pipeHarness) opSubscribe(exact, excl bool, nListeners int) (string, err
 			opts = append(opts, Exclusive())
 		}
 		before := h.etcd.WatchCount(r)
-		sub, err := NewSubscriber(h.etcd.Endpoints(), key, opts...)
+		// etcd unreachable at first: NewSubscriber fails, the caller tries again until it is back
+		h.etcd.VerifFailDials(h.dialFails)
+		failedBefore := h.etcd.VerifFailedDials()
+		var sub *Subscriber
+		var err error
+		for attempt := 0; ; attempt++ {
+			sub, err = NewSubscriber(h.etcd.Endpoints(), key, opts...)
+			if err == nil || h.etcd.VerifFailedDials()-failedBefore <= attempt || attempt > 5 {
+				break
+			}
+			h.dialFailed++
+		}
+		h.etcd.VerifFailDials(0)
+		h.dialFails = 0
 		if err != nil {
 			return fmt.Errorf("NewSubscriber: %w", err)
 		}
@@ -525,7 +542,13 @@ func pipelineProperty(st *verifkit.Stats, concurrent bool) func(*rapid.T) {
 		subscribe := func(t *rapid.T) {
 			exact := rapid.IntRange(0, 4).Draw(t, "exact") == 0
 			excl := rapid.Bool().Draw(t, "exclusive")
+			if h.nsub == 0 && rapid.IntRange(0, 3).Draw(t, "dialFails") == 0 {
+				h.dialFails = rapid.IntRange(1, 2).Draw(t, "dialFailsN")
+			}
 			do(h.opSubscribe(exact, excl, rapid.IntRange(0, 2).Draw(t, "listeners")))
+			if h.dialFailed > 0 {
+				st.Class("lifecycle:subscribed-after-failed-connection-attempts")
+			}
 		}
 		subscribe(t)
 		put := func(t *rapid.T) {
